@@ -96,10 +96,19 @@ func (t *intScalar) CoerceOut(v interface{}) (interface{}, error) {
 	case nil:
 		// remains nil
 	case float32:
+		if !(math.MinInt32 <= tv && tv < -math.MinInt32) { // also false for NaN
+			return nil, newCoerceErr(v, "Int")
+		}
 		v = int32(tv)
 	case float64:
+		if !(math.MinInt32 <= tv && tv < -math.MinInt32) { // also false for NaN
+			return nil, newCoerceErr(v, "Int")
+		}
 		v = int32(tv)
 	case int:
+		if tv < math.MinInt32 || math.MaxInt32 < tv {
+			return nil, newCoerceErr(v, "Int")
+		}
 		v = int32(tv)
 	case int8:
 		v = int32(tv)
@@ -108,20 +117,32 @@ func (t *intScalar) CoerceOut(v interface{}) (interface{}, error) {
 	case int32:
 		// ok as is
 	case int64:
+		if tv < math.MinInt32 || math.MaxInt32 < tv {
+			return nil, newCoerceErr(v, "Int")
+		}
 		v = int32(tv)
 	case uint:
+		if math.MaxInt32 < tv {
+			return nil, newCoerceErr(v, "Int")
+		}
 		v = int32(tv)
 	case uint8:
 		v = int32(tv)
 	case uint16:
 		v = int32(tv)
 	case uint32:
+		if math.MaxInt32 < tv {
+			return nil, newCoerceErr(v, "Int")
+		}
 		v = int32(tv)
 	case uint64:
+		if math.MaxInt32 < tv {
+			return nil, newCoerceErr(v, "Int")
+		}
 		v = int32(tv)
 	case string:
 		var i int64
-		if i, err = strconv.ParseInt(tv, 10, 64); err == nil {
+		if i, err = strconv.ParseInt(tv, 10, 32); err == nil {
 			v = int32(i)
 		}
 	default:
